@@ -939,7 +939,14 @@ fn call_expr_to_asg_texpr(call_expr: synast::CallExpr, context: &mut Context) ->
         .as_tuple();
     let def_type = match call_type {
         Type::SubroutineDef(def_type) => def_type,
-        _ => panic!("programming error: expected Type::Def variant"),
+        _ => {
+            // The callee is not a subroutine. If the name is not bound at all,
+            // then UndefVarError has already been logged.
+            if symbol_result.is_ok() {
+                context.insert_error(IncompatibleTypesError, &subroutine_id.unwrap());
+            }
+            return asg::SubroutineCall::new(symbol_result, param_list).to_texpr(Type::Undefined);
+        }
     };
     let expected_num_params = def_type.num_params;
     // number of params actually passed in call.
